@@ -151,7 +151,15 @@ def run(tier, seed, replay=None):
         for k in sorted(by_kind):            # every kind of depth-1 type, evenly
             ts = by_kind[k]
             roots += rnd.sample(ts, min(len(ts), max(8, nd1 * len(ts) // len(d1))))
-        roots += rnd.sample([t for t in d2 if t["k"] != "rs"], min(nd2, len(d2)))
+        # depth 2, evenly over the shapes (top-level kind + kinds of the children): arrays of structs, optionals of
+        # structs and structs holding them are few among the many structs of primitives and must not be crowded out
+        shapes = {}
+        for t in d2:
+            if t["k"] != "rs":
+                shapes.setdefault(t["k"] + "".join(sorted(set(x["k"] for x in t["kids"]))), []).append(t)
+        for k in sorted(shapes):
+            ts = shapes[k]
+            roots += ts if k.startswith("ar") else rnd.sample(ts, min(len(ts), max(12, nd2 // len(shapes))))
         roots += rs2 if tier == "thorough" else rnd.sample(rs2, min(len(rs2), 36))
         roots += family_roots(fam, rnd, nf)
         progs = []
@@ -178,6 +186,9 @@ def run(tier, seed, replay=None):
                 stats[target]["void"] += 1          # nothing was stored: the property says nothing about a rejected program
                 chk.cov.setdefault("void_reasons", {}).setdefault(target + ": " + ob["msg"][:60], 0)
                 chk.cov["void_reasons"][target + ": " + ob["msg"][:60]] += 1
+                ex = chk.cov.setdefault("void_examples", {}).setdefault(target + ": " + ob["msg"][:60], [])
+                if len(ex) < 3:
+                    ex.append(ob["name"])
             elif st == "badrun":
                 chk.fail("C18|run|%s|%s|%s" % (target, ob["halt"], ob["name"]), "the %s program over %s ends with %s" % (target, ob["name"], ob["msg"]), rep)
             else:
